@@ -13,17 +13,39 @@ import (
 // OpenSecureChannel exchange against the repository's own server-side channel over a
 // modelled pipe. The scripted server answers every request with respond(req) (nil = no answer).
 func vfConnectedClient(respond func(req ua.Request) ua.Response) *Client {
+	c, _ := vfConnectedClientSec("", ua.MessageSecurityModeNone, func(ssc *uasc.SecureChannel, req ua.Request) ua.Response { return respond(req) })
+	return c
+}
+
+// vfSecEnv: the key material of a secured connection (nil for policy None).
+type vfSecEnv struct {
+	clientKey, serverKey, otherKey    *vfRSAPriv
+	clientCert, serverCert, otherCert []byte
+}
+
+// vfConnectedClientSec: the same for any policy / mode; with a secured policy the asymmetric
+// OpenSecureChannel exchange (certificates, RSA, key derivation) runs on both ends.
+func vfConnectedClientSec(policy string, mode ua.MessageSecurityMode, respond func(ssc *uasc.SecureChannel, req ua.Request) ua.Response) (*Client, *vfSecEnv) {
 	a, b := vfTCPPair("cl")
 	ack := &uacp.Acknowledge{ReceiveBufSize: 65535, SendBufSize: 65535, MaxChunkCount: 64, MaxMessageSize: 1 << 22}
 	cconn, err := uacp.NewConn(a, ack)
 	vfAssert(err == nil, "NewConn fails")
 	sconn, _ := uacp.NewConn(b, ack)
-	c, err := NewClient("opc.tcp://h:4840", SecurityMode(ua.MessageSecurityModeNone), AutoReconnect(false), RequestTimeout(time.Second))
+	opts := []Option{SecurityMode(mode), AutoReconnect(false), RequestTimeout(time.Second)}
+	scfg := &uasc.Config{SecurityPolicyURI: ua.SecurityPolicyURINone, SecurityMode: ua.MessageSecurityModeNone, Lifetime: 3600000}
+	var env *vfSecEnv
+	if mode != ua.MessageSecurityModeNone {
+		env = &vfSecEnv{clientKey: vfRSAKey("client", 256), serverKey: vfRSAKey("server", 256), otherKey: vfRSAKey("other", 256)}
+		env.clientCert, env.serverCert, env.otherCert = vfCert("client", env.clientKey), vfCert("server", env.serverKey), vfCert("other", env.otherKey)
+		opts = append(opts, SecurityPolicy(policy), Certificate(env.clientCert), PrivateKey(env.clientKey), RemoteCertificate(env.serverCert))
+		scfg.Certificate, scfg.LocalKey = env.serverCert, env.serverKey
+	}
+	c, err := NewClient("opc.tcp://h:4840", opts...)
 	vfAssert(err == nil && c != nil, "NewClient fails")
 	sc, err := uasc.NewSecureChannel(c.endpointURL, cconn, c.cfg.sechan, c.sechanErr)
 	vfAssert(err == nil && sc != nil, "NewSecureChannel fails")
 	errs := make(chan error, 8)
-	ssc, err := uasc.NewServerSecureChannel("", sconn, &uasc.Config{SecurityPolicyURI: ua.SecurityPolicyURINone, SecurityMode: ua.MessageSecurityModeNone, Lifetime: 3600000}, errs, 7, 3, 9)
+	ssc, err := uasc.NewServerSecureChannel("", sconn, scfg, errs, 7, 3, 9)
 	vfAssert(err == nil && ssc != nil, "NewServerSecureChannel fails")
 	go func() {
 		for {
@@ -35,7 +57,7 @@ func vfConnectedClient(respond func(req ua.Request) ua.Response) *Client {
 			if req == nil {
 				continue // the OpenSecureChannel request was handled inside Receive
 			}
-			if resp := respond(req); resp != nil {
+			if resp := respond(ssc, req); resp != nil {
 				ssc.SendResponseWithContext(context.Background(), msg.RequestID, resp)
 			}
 		}
@@ -44,7 +66,7 @@ func vfConnectedClient(respond func(req ua.Request) ua.Response) *Client {
 	vfAssert(err == nil, "opening the secure channel fails")
 	c.conn = cconn
 	c.setSecureChannel(sc)
-	return c
+	return c, env
 }
 
 func vfRH() *ua.ResponseHeader {
